@@ -120,7 +120,8 @@ def run(ctx: Ctx):
         if mv_[0] == "comp" and len(mv_[3]) == 1 and not mv_[4]:
             bv = ("bv", mv_[1])
             src = _av.show(mv_[2]).replace("self.ode.", "ode.")
-            okm = mv_[3][0] == ("kv", ("attr", bv, "symbol"), ("attr", bv, "expr")) and src in ("(ode.intermediates + ode.state_derivatives)", "(ode.state_derivatives + ode.intermediates)")
+            parts = sorted(_av.show(p_).replace("self.ode.", "ode.") for p_ in _av.concat_parts(mv_[2]))
+            okm = mv_[3][0] == ("kv", ("attr", bv, "symbol"), ("attr", bv, "expr")) and parts == ["ode.intermediates", "ode.state_derivatives"]
         ctx.check(okm, "R20.b", f.key("map"), "map = {x.symbol: x.expr for every intermediate and state derivative}", f"rhs_matrix: the substitution map is `{_av.show(mapv)[:160]}`, not symbol -> expr for every intermediate and state derivative", f.where())
     okx = bool(xr) and mname is not None and all(len(c.args) == 1 and norm(c.args[0]) == mname for c in xr)
     ctx.check(okx, "R20.b", f.key("substitute-full-map"), "each pass substitutes the complete map", f"rhs_matrix: a pass substitutes {[norm(c.args[0]) if c.args else None for c in xr]} instead of one complete map", f.where(w))
